@@ -43,6 +43,8 @@ pub struct GenCfg {
     pub admin_email: bool,
     pub eff_log_file: Option<String>,
     pub eff_dns: bool,
+    pub ping_timeout: u64,
+    pub pong_timeout: u64,
 }
 
 static FILE_SEQ: AtomicU64 = AtomicU64::new(0);
@@ -191,9 +193,14 @@ pub fn gen_config(seeds: &[u16], force_valid: bool) -> GenCfg {
             bad("max_joins invalid", &mut reasons);
         }
     }
-    for f in ["ping_timeout", "pong_timeout"] {
+    let mut timeouts: [u64; 2] = [0, 0];
+    for (fi, f) in ["ping_timeout", "pong_timeout"].iter().enumerate() {
         match mode(&mut s, pa, pi) {
-            0 => t += &format!("{} = {}\n", f, 1 + s.pick(300)),
+            0 => {
+                let v = 1 + s.pick(300) as u64;
+                timeouts[fi] = v;
+                t += &format!("{} = {}\n", f, v)
+            }
             1 => bad(&format!("{} absent", f), &mut reasons),
             _ => {
                 t += &format!("{} = -5\n", f);
@@ -443,6 +450,8 @@ pub fn gen_config(seeds: &[u16], force_valid: bool) -> GenCfg {
         admin_email,
         eff_log_file,
         eff_dns,
+        ping_timeout: timeouts[0],
+        pong_timeout: timeouts[1],
     }
 }
 
@@ -878,6 +887,44 @@ pub fn check_govern(c: &CfgCase, st: &mut Stats) -> Result<(), Viol> {
                 return Err(fail("C20.max_connections", "max-connections", format!("max_connections = {}: after a served connection ended a new one was refused", m)));
             }
             st.count("max_connections_probed");
+        }
+    }
+    // ping_timeout and pong_timeout govern the keep-alive (virtual time): a fresh client that never
+    // answers gets its first PING ping_timeout after registering and is dropped pong_timeout later
+    if g.ping_timeout > 0 && g.pong_timeout > 0 && g.max_connections.map_or(true, |m| m > 8) && s.chance(35) {
+        let k = w.connect();
+        if g.password.is_some() {
+            w.send_line(k, &format!("PASS :{}", g.password.clone().unwrap()));
+        }
+        w.send_line(k, "NICK silent");
+        w.send_line(k, "USER silent 0 * :Silent");
+        w.settle();
+        w.drain(k);
+        let t0 = w.now_ms();
+        let (p, q) = (g.ping_timeout as u128 * 1000, g.pong_timeout as u128 * 1000);
+        // just before the PING is due nothing has come
+        w.advance(std::time::Duration::from_millis((p - 200) as u64));
+        let early = w.drain(k);
+        w.advance(std::time::Duration::from_millis(400));
+        let at_ping = w.drain(k);
+        let ping_ok = !early.iter().any(|l| l.contains(" PING ")) && at_ping.iter().any(|l| l.contains(" PING "));
+        // the harness's other connections answer their PINGs meanwhile or are not of interest
+        w.advance(std::time::Duration::from_millis((q - 400) as u64));
+        w.drain(k);
+        let still_there = !w.conns[k].eof;
+        w.advance(std::time::Duration::from_millis(600));
+        w.drain(k);
+        let gone = w.conns[k].eof;
+        st.count("timeouts_probed");
+        if !(ping_ok && still_there && gone) {
+            return Err(fail(
+                "C20.timeouts_govern",
+                "timeouts",
+                format!(
+                    "ping_timeout = {} s, pong_timeout = {} s: a silent client registered at t={} ms; PING exactly at +ping_timeout: {}; still connected just before +ping+pong: {}; dropped just after: {}",
+                    g.ping_timeout, g.pong_timeout, t0, ping_ok, still_there, gone
+                ),
+            ));
         }
     }
     crate::sim::set_in_sim(false);
